@@ -11,12 +11,17 @@ LIT = {
     # strings
     "s_abc": '"abc"', "s_empty": '""', "u_abc": "abc", "s_uni": '"aé☃"', "s_b": '"b"', "s_zz": '"zz"', "u_c": "c",
     "s_long": '"hello world"', "u_a": "a", "u_b": "b", "u_zz": "zz",
+    "s_upper": '"ÄÖÜ Ñandú École ABC"', "s_lower": '"äöü ñ é ǆ ß abc"', "u_upper": "ÀB-Çd", "s_astral": '"a😀b𝒳𝐀"', "s_comb": '"e\u0301E\u0301x"',
+    "s_uml": '"Ö"', "s_emoji": '"😀"', "s_qa": '"a"',
     # numbers
+    "n_mfrac": "-1.5", "n_m2h5px": "-2.5px", "n_deg": "90deg", "n_mhalf": "-0.5", "n_33pct": "33.3%",
     "n_0": "0", "n_1": "1", "n_2": "2", "n_m1": "-1", "n_9": "9", "n_1h": "1.5", "n_2px": "2px", "n_50pct": "50%",
     "n_0pct": "0%", "n_100pct": "100%", "n_25": "25", "n_30": "30", "n_m2": "-2", "n_3": "3", "n_10pct": "10%", "n_7em": "7em",
     # lists, maps
     "l_abc": "(a b c)", "l_comma": "(a, b)", "l_empty": "()", "l_br": "[a b]", "m_ab": "(a: 1, b: 2)", "m_empty": "map-remove((a: 1), a)",
     "m_nest": "(a: (b: 1))", "l_nested": "(a b, c d)", "l_slash": "list.slash(a, b)", "m_num": "(1: x, 2: y)",
+    "l_brcomma": "[a, b]", "l_null": "(a null b)", "m_mixed": '(a: 1, "b": null, 2: (x y))',
+    "c_hsla": "hsla(200, 40%, 60%, 0.3)", "c_hwb": "hwb(120 20% 30%)", "c_hexa": "#12345680",
     # misc
     "null": "null", "true": "true", "false": "false", "u_comma": "comma", "u_space": "space", "u_auto": "auto", "u_slash": "slash",
     "x_bad": "foo", "x_num": "1", "x_str": '"a"', "x_strc": '"foo"',
